@@ -69,6 +69,9 @@ func schedRun(L *ev.Layer, scs []schedScenario, quickS, thoroughS int) {
 			fmt.Println("VERIF-INFRA:", name, st.Infra)
 			panic("VERIF-INFRA: " + st.Infra)
 		}
+		if st.Divergences > 0 {
+			L.Cap(fmt.Sprintf("%s: %d schedule prefixes could not be replayed deterministically (%s); their subtrees were not explored", name, st.Divergences, st.LastDivergence))
+		}
 		if st.Capped != "" {
 			L.Cap(name + ": " + st.Capped + fmt.Sprintf(" (bound %d fully explored)", st.BoundCompleted))
 		}
@@ -318,8 +321,8 @@ func TestVerifC02Sched(t *testing.T) {
 	L := ev.Begin("C02", "c02-sched", "model_checking",
 		"controlled scheduler: one writer installs tables B, (nil,) A with SetTable while 1-2 readers each look up two requests that tell A from B on two routes; every interleaving up to the preemption bound; oracle: each pair of answers (+ access decision) comes from one complete table, per reader the tables are monotone in installation order, nil is ignored")
 	scs := []schedScenario{
-		{"swap-1reader-2rounds", 3, -1, c02SwapBody(1, 2, false)},
-		{"swap-2readers", 2, 3, c02SwapBody(2, 1, false)},
+		{"swap-1reader-2rounds", 2, 3, c02SwapBody(1, 2, false)},
+		{"swap-2readers", 1, 3, c02SwapBody(2, 1, false)},
 		{"swap-nil-ignored", 2, 3, c02SwapBody(1, 2, true)},
 		{"swap-2readers-2rounds", 1, 2, c02SwapBody(2, 2, true)},
 	}
